@@ -26,6 +26,8 @@ ITEMS = [
     ("same_method", "class Other(object):\n    def train(self, a):\n        return a\n\n    def set_cli_args(self, argument_parser):\n        return argument_parser\n"),
     ("nested_same", "class Outer(object):\n    class ConfigClass(object):\n        q: int = 1\n\n    def train(self, a=1):\n        return a\n"),
     ("unrelated", "class Unrelated(object):\n    y: int = 2\n"),
+    ("dunder_all", "__all__ = ['ConfigClass', 'train', 'set_cli_args']\n"),
+    ("forward_ref", "class Registry(object):\n    default: Optional['ConfigClass'] = None\n    hook: 'train' = None\n"),
     # syntax variety that a whole-module re-emission must carry unchanged
     ("posonly_varargs", "def clamp(value, low, high, /, *rest, strict=False, **extra):\n    return value\n"),
     ("decorated_async", "import functools\n\n\n@functools.lru_cache(maxsize=None)\ndef cached(n: int = 3) -> int:\n    return n\n\n\nasync def fetch(url, *, timeout=1.0):\n    return url\n"),
@@ -37,6 +39,10 @@ MEMBERS = [
     ("nested", "    class Inner(object):\n        a: int = 1\n"),
 ]
 BODY_EXTRA = "total = 0\nprint(total)"
+MODULE_DOCS = {
+    "plain": '"""Module documentation.\n\nSecond paragraph of the module docstring.\n"""\n',
+    "table": '"""Settings module.\n\nDATA_DIR      where the data lives\nusage:    prog [options]\n"""\n',
+}
 
 
 def seqs(n_items, maxlen):
@@ -57,6 +63,20 @@ def build_cases(tier):
             for state in ("absent", "stale", "agree"):
                 for nl in (True, False):
                     cases.append({"mode": "module", "target": target, "prefix": list(p), "suffix": list(s), "state": state, "newline": nl})
+    # a module docstring (plain / with an aligned table, i.e. runs of spaces) in front of everything
+    for target in pj.KINDS:
+        for doc in ("plain", "table"):
+            for p, s in [((), ()), ((1,), ()), ((), (2,)), ((0,), (5,))]:
+                for state in ("absent", "stale", "agree"):
+                    cases.append({"mode": "module", "target": target, "prefix": list(p), "suffix": list(s), "state": state,
+                                  "newline": True, "moddoc": doc})
+    # one file that is the target of two kinds in the same run (class + argparse function)
+    for p, s in [((), ()), ((1,), ()), ((), (2,)), ((0,), (5,)), ((2,), (1,))]:
+        for cstate in ("absent", "stale", "agree"):
+            for astate in ("absent", "stale", "agree"):
+                for order in ("class_first", "argparse_first"):
+                    cases.append({"mode": "shared", "target": "class", "prefix": list(p), "suffix": list(s), "state": cstate,
+                                  "astate": astate, "order": order, "newline": True})
     mem = [(p, s) for p in seqs(len(MEMBERS), 2) for s in seqs(len(MEMBERS), 2) if not set(p) & set(s)]
     for p, s in mem:
         for state in ("absent", "stale", "agree"):
@@ -126,6 +146,8 @@ class C11(core.Check):
 
             atexit.register(shutil.rmtree, self._dir, True)
         shutil.rmtree(self._dir, ignore_errors=True)
+        if case["mode"] == "shared":
+            return self.run_shared(case)
         target = case["target"]
         truth = "function" if target == "class" else "class"
         method = case["mode"] == "method"
@@ -149,12 +171,16 @@ class C11(core.Check):
             if not body:
                 body = ["    marker: int = 0\n"]
             src = "import os\n\nclass Trainer(object):\n" + "\n".join(body) + "\nAFTER = 1\n"
+        if case.get("moddoc"):
+            doc = MODULE_DOCS[case["moddoc"]]
+            src = doc + "\n" + src
         src = src.rstrip("\n") + ("\n" if case["newline"] else "")
         if not src.strip():
             src = ""
         P.write(target, src)
         labels = ITEMS if not method else MEMBERS
         base = {"mode": case["mode"], "target": pj.SHORT[target], "state": case["state"], "newline": case["newline"],
+                "moddoc": case.get("moddoc", "-"),
                 "prefix": ">".join(labels[i][0] for i in case["prefix"]) or "-", "suffix": ">".join(labels[i][0] for i in case["suffix"]) or "-"}
         exc, rep, out = P.sync(truth, [k for k in pj.KINDS if k in (truth, target)], "api")
         after = P.read(target)
@@ -193,5 +219,51 @@ class C11(core.Check):
         nontrivial = (src, target) if (case["prefix"] or case["suffix"]) else None
         return sites, nontrivial, [src, target, after]
 
+
+def _run_shared(self, case):
+    """class + argparse function live in one file; truth is a function in its own file."""
+    P = pj.Project(self._dir)
+    P.files["argparse_function"] = P.files["class"] = "both.py"
+    P.write("function", pj.render("function", "v1"))
+
+    def definition(kind, state):
+        if state == "absent":
+            return None
+        return pj.render(kind, "v2" if state == "stale" else "v1")
+
+    cdef, adef = definition("class", case["state"]), definition("argparse_function", case["astate"])
+    defs = [d for d in ((cdef, adef) if case["order"] == "class_first" else (adef, cdef)) if d]
+    parts = [ITEMS[i][1] for i in case["prefix"]] + defs + [ITEMS[i][1] for i in case["suffix"]]
+    src = "\n".join(parts)
+    if src.strip():
+        src = src.rstrip("\n") + "\n"
+    P.write("class", src)
+    base = {"mode": "shared", "state": case["state"], "astate": case["astate"], "order": case["order"],
+            "prefix": ">".join(ITEMS[i][0] for i in case["prefix"]) or "-", "suffix": ">".join(ITEMS[i][0] for i in case["suffix"]) or "-"}
+    exc, rep, out = P.sync("function", list(pj.KINDS), "api")
+    after = P.read("class")
+    sites = []
+    if exc is not None:
+        sites.append(site(False, dict(base, field="call"), fail="raise", **core.exc_obs(exc)))
+        return sites, (src, "shared"), [src, "raise"]
+    sites.append(site(True, dict(base, field="call")))
+    try:
+        tree = ast.parse(after)
+    except SyntaxError as e:
+        sites.append(site(False, dict(base, field="parses"), fail="syntax_error", msg=core.short(str(e), 60)))
+        return sites, (src, "shared"), [src, "syntax"]
+    names = ("ConfigClass", "set_cli_args")
+
+    def others(text):
+        return [ast.dump(n) for n in ast.parse(text).body if not (isinstance(n, (ast.ClassDef, ast.FunctionDef)) and n.name in names)]
+
+    sites.append(site(others(src) == others(after), dict(base, field="other_statements"), fail="other_statements_changed"))
+    for nm in names:
+        cnt = sum(1 for n in tree.body if isinstance(n, (ast.ClassDef, ast.FunctionDef)) and n.name == nm)
+        sites.append(site(cnt == 1, dict(base, field="one_definition", name=nm), fail="definition_count", count=cnt))
+    return sites, (src, "shared"), [src, after]
+
+
+C11.run_shared = _run_shared
 
 CHECK = C11
